@@ -146,13 +146,28 @@ fn guard<T>(f: impl FnOnce() -> T) -> Result<T, String> {
     })
 }
 
+/// oracle answers for one (haystack, span, anchoring), computed once and shared by all
+/// configurations
+#[derive(Default)]
+pub struct Want {
+    find: Option<Option<M>>,
+    occs: Option<Vec<M>>,
+    iter: Option<Vec<M>>,
+    ov: Option<Vec<M>>,
+}
+
 /// run one aspect on one (cfg, haystack, span); returns false if it failed
 pub fn check_aspect(ctx: &Ctx, cfg: &Cfg, b: &Built, aspect: &str, hay: &[u8], s: usize, e: usize, anch: bool) -> bool {
+    let mut w = Want::default();
+    check_aspect_w(ctx, cfg, b, aspect, hay, s, e, anch, &mut w)
+}
+
+pub fn check_aspect_w(ctx: &Ctx, cfg: &Cfg, b: &Built, aspect: &str, hay: &[u8], s: usize, e: usize, anch: bool, w: &mut Want) -> bool {
     let pats = ctx.pats;
     let (kind, ci) = (ctx.kind, ctx.ci);
     match aspect {
         "find" => {
-            let want = oracle::find(pats, ci, kind, hay, s, e, anch);
+            let want = *w.find.get_or_insert_with(|| oracle::find(pats, ci, kind, hay, s, e, anch));
             let got = guard(|| b.try_find(hay, s, e, anch, false));
             let ok = matches!(&got, Ok(Ok(g)) if *g == want);
             if !ok {
@@ -168,7 +183,7 @@ pub fn check_aspect(ctx: &Ctx, cfg: &Cfg, b: &Built, aspect: &str, hay: &[u8], s
                 (Ok(Ok(n)), Ok(Ok(g))) => match (n, g) {
                     (None, None) => true,
                     (Some(n), Some(g)) => {
-                        g.end <= n.end && oracle::occs_in(pats, ci, hay, s, e, anch).contains(g)
+                        g.end <= n.end && w.occs.get_or_insert_with(|| oracle::occs_in(pats, ci, hay, s, e, anch)).contains(g)
                     }
                     _ => false,
                 },
@@ -180,7 +195,7 @@ pub fn check_aspect(ctx: &Ctx, cfg: &Cfg, b: &Built, aspect: &str, hay: &[u8], s
             ok
         }
         "ismatch" => {
-            let want = !oracle::occs_in(pats, ci, hay, s, e, anch).is_empty();
+            let want = !w.occs.get_or_insert_with(|| oracle::occs_in(pats, ci, hay, s, e, anch)).is_empty();
             let t = match b.top() {
                 Some(t) => t,
                 None => return true,
@@ -196,7 +211,7 @@ pub fn check_aspect(ctx: &Ctx, cfg: &Cfg, b: &Built, aspect: &str, hay: &[u8], s
             ok
         }
         "iter" => {
-            let want = oracle::iter(pats, ci, kind, hay, s, e, anch);
+            let want = w.iter.get_or_insert_with(|| oracle::iter(pats, ci, kind, hay, s, e, anch)).clone();
             let got = guard(|| b.try_find_iter(hay, s, e, anch));
             let ok = matches!(&got, Ok(Ok(g)) if *g == want);
             if !ok {
@@ -206,7 +221,7 @@ pub fn check_aspect(ctx: &Ctx, cfg: &Cfg, b: &Built, aspect: &str, hay: &[u8], s
         }
         "ov" => {
             // stepping, then 3 more calls that must stay quiet; and the iterator (unanchored only)
-            let want = oracle::overlap_list(pats, ci, hay, s, e, anch);
+            let want = w.ov.get_or_insert_with(|| oracle::overlap_list(pats, ci, hay, s, e, anch)).clone();
             let got = guard(|| b.overlapping_steps(hay, s, e, anch, 3, want.len() + 5));
             let mut ok = matches!(&got, Ok(Ok((g, quiet))) if *g == want && *quiet);
             if !ok {
@@ -263,7 +278,7 @@ fn shift(r: &str, by: usize) -> String {
 /// relational checks: `kind` = every configuration vs the first one; `span` = span search vs
 /// sub-slice search shifted, and bytes outside the span are irrelevant
 pub fn check_hay_rel(ctx: &Ctx, built: &[(Cfg, Built)], hay: &[u8], aspects: u32, rel: &str) {
-    let spans = spans_of(hay.len(), aspects & A_SPANS != 0);
+    let spans = spans_of(hay.len(), aspects & A_SPANS != 0 && hay.len() <= SPAN_CAP.load(std::sync::atomic::Ordering::Relaxed));
     let any = !oracle::occs_in(ctx.pats, ctx.ci, hay, 0, hay.len(), false).is_empty();
     let names: Vec<&str> = [("find", A_FIND), ("iter", A_ITER), ("ov", A_OV), ("earliest", A_EARLIEST)].iter().filter(|x| aspects & x.1 != 0).map(|x| x.0).collect();
     for &(s, e) in &spans {
@@ -347,8 +362,11 @@ fn spans_of(len: usize, all: bool) -> Vec<(usize, usize)> {
     v
 }
 
+pub static SPAN_CAP: std::sync::atomic::AtomicUsize = std::sync::atomic::AtomicUsize::new(5);
+
 pub fn check_hay(ctx: &Ctx, built: &[(Cfg, Built)], hay: &[u8], aspects: u32) {
-    let spans = spans_of(hay.len(), aspects & A_SPANS != 0);
+    // every span of short haystacks; longer haystacks are searched whole
+    let spans = spans_of(hay.len(), aspects & A_SPANS != 0 && hay.len() <= SPAN_CAP.load(std::sync::atomic::Ordering::Relaxed));
     let any = !oracle::occs_in(ctx.pats, ctx.ci, hay, 0, hay.len(), false).is_empty();
     for &(s, e) in &spans {
         if s > e {
@@ -365,32 +383,33 @@ pub fn check_hay(ctx: &Ctx, built: &[(Cfg, Built)], hay: &[u8], aspects: u32) {
             }
             continue;
         }
-        for (cfg, b) in built {
-            for anch in [false, true] {
-                if anch && aspects & (A_ANCH | A_OVANCH) == 0 {
-                    continue;
-                }
+        for anch in [false, true] {
+            if anch && aspects & (A_ANCH | A_OVANCH) == 0 {
+                continue;
+            }
+            let mut w = Want::default();
+            for (cfg, b) in built {
                 if !cfg.supports(anch) {
                     continue;
                 }
                 if aspects & A_FIND != 0 && (!anch || aspects & A_ANCH != 0) {
-                    check_aspect(ctx, cfg, b, "find", hay, s, e, anch);
+                    check_aspect_w(ctx, cfg, b, "find", hay, s, e, anch, &mut w);
                     ctx.rep.case(any);
                 }
                 if aspects & A_ITER != 0 && (!anch || aspects & A_ANCH != 0) {
-                    check_aspect(ctx, cfg, b, "iter", hay, s, e, anch);
+                    check_aspect_w(ctx, cfg, b, "iter", hay, s, e, anch, &mut w);
                     ctx.rep.case(any);
                 }
                 if aspects & A_EARLIEST != 0 && (!anch || aspects & A_ANCH != 0) {
-                    check_aspect(ctx, cfg, b, "earliest", hay, s, e, anch);
+                    check_aspect_w(ctx, cfg, b, "earliest", hay, s, e, anch, &mut w);
                     ctx.rep.case(any);
                 }
                 if aspects & A_ISMATCH != 0 && cfg.is_top() && (!anch || aspects & A_ANCH != 0) {
-                    check_aspect(ctx, cfg, b, "ismatch", hay, s, e, anch);
+                    check_aspect_w(ctx, cfg, b, "ismatch", hay, s, e, anch, &mut w);
                     ctx.rep.case(any);
                 }
                 if ctx.kind == Kind::Std && ((aspects & A_OV != 0 && !anch) || (aspects & A_OVANCH != 0 && anch)) {
-                    check_aspect(ctx, cfg, b, "ov", hay, s, e, anch);
+                    check_aspect_w(ctx, cfg, b, "ov", hay, s, e, anch, &mut w);
                     ctx.rep.case(any);
                 }
             }
@@ -414,12 +433,13 @@ pub fn family(name: &str, thorough: bool, seed: usize) -> Family {
         // alphabet {a,b}: every list of <= 3 patterns of length <= 3 incl. empty + duplicates
         "small" => {
             let pool = gen::strings(ab, 0, 3);
-            let lists = if thorough { gen::lists(&pool, 3, 1, 0) } else { gen::lists(&pool, 3, 9, seed) };
-            Family { name: name.into(), lists, hays: gen::strings(ab, 0, if thorough { 8 } else { 6 }) }
+            let lists = if thorough { gen::lists(&pool, 3, 2, seed) } else { gen::lists(&pool, 3, 9, seed) };
+            Family { name: name.into(), lists, hays: gen::strings(ab, 0, if thorough { 7 } else { 6 }) }
         }
         // longer patterns over {a,b,c}, fewer lists: prefix/suffix/infix families
         "abc" => {
-            let pool = gen::strings(b"abc", 0, if thorough { 4 } else { 3 });
+            let pool = gen::strings(b"abc", 0, 3);
+            let pool4 = gen::strings(b"abc", 0, 4);
             let mut lists = gen::lists(&pool, 1, 1, 0);
             let two = gen::lists(&pool, 2, 1, 0);
             let stride = if thorough { 1 } else { 5 };
@@ -443,7 +463,7 @@ pub fn family(name: &str, thorough: bool, seed: usize) -> Family {
                 let maxl = if i % 3 == 0 { 4 } else { 6 };
                 lists.push((0..k).map(|_| { let l = 1 + rng.below(maxl); rng.bytes(b"abc", l) }).collect());
             }
-            Family { name: name.into(), lists, hays: gen::strings(b"abc", 0, if thorough { 5 } else { 4 }) }
+            Family { name: name.into(), lists, hays: gen::strings(b"abc", 0, 4) }
         }
         // many patterns (21..64, beyond small-sort thresholds) with duplicated strings; lengths
         // 2..3 over 8 letters; activates the packed prefilter in default configurations
@@ -536,6 +556,7 @@ pub fn run(args: &Args) -> Report {
     let aspects = parse_aspects(&args.get("aspects", "find,iter"));
     let cfgname = args.get("cfgs", "all");
     let rel = args.get("rel", "def");
+    SPAN_CAP.store(args.num("spancap", 5), std::sync::atomic::Ordering::Relaxed);
     let fams: Vec<String> = args.get("families", "small").split(',').map(|s| s.to_string()).collect();
     let cis: Vec<bool> = match args.get("ci", "0").as_str() {
         "0" => vec![false],
@@ -545,10 +566,10 @@ pub fn run(args: &Args) -> Report {
     let rep = Report::new(
         &format!("sem[{}|{}|{}|{}]", args.get("kinds", "lf,ll"), args.get("aspects", "find,iter"), args.get("families", "small"), args.get("rel", "def")),
         format!(
-            "families {:?} (tier {}): small = all lists of <=3 patterns of length <=3 over {{a,b}} incl. empty pattern and duplicates ({} of the 3-lists in quick), haystacks = all strings over the family alphabet up to length {}; abc/ci = see bounded/src/sem.rs; configurations = set '{}'",
+            "families {:?} (tier {}): small = all lists of <=3 patterns of length <=3 over {{a,b}} incl. empty pattern and duplicates ({} of the 3-lists in quick), haystacks = all strings over the family alphabet up to length {} (every span for haystacks up to 5/6 bytes); other families = see bounded/src/sem.rs; configurations = set '{}'",
             fams,
             args.get("tier", "quick"),
-            if thorough { "all" } else { "1/9" },
+            if thorough { "1/2" } else { "1/9" },
             if thorough { 8 } else { 6 },
             cfgname
         ),
